@@ -292,6 +292,16 @@ def verify_function(world, c, setup=None, body_of=None, hooks=None, extra_check=
             scope.set(pname, world.fresh_value(I, ptype, pname))
         if setup is not None:
             setup(I, scope)
+        # parameters the contract does not mention take their default value (the real default expression of the signature)
+        if isinstance(fn, (ast.FunctionDef, ast.AsyncFunctionDef)) and body_of is None:
+            a = fn.args
+            pos = a.posonlyargs + a.args
+            for arg, d in list(zip(pos[len(pos) - len(a.defaults):], a.defaults)) + [(k, d) for k, d in zip(a.kwonlyargs, a.kw_defaults) if d is not None]:
+                if not scope.has(arg.arg):
+                    try:
+                        scope.set(arg.arg, I.eval(d, scope))
+                    except Undecided:
+                        pass
         inputs_holder['scope'] = dict(scope.vars)
         inputs_holder['heap'] = I.snapshot_heap()
         for name, axioms in world.enum_orders.items():
